@@ -80,6 +80,26 @@ claim("C15", "static: lockset + call-graph reachability of blocking gRPC stream 
       "latencies, time bounds, 'eventually', TCP-level stalls.",
       "DESIGN.md §2 C15")
 
+claim("C09", "static: writer/reader layout agreement (offset-addressed codec extraction with symbolic linear offsets), fragmentation loop tables, narrowing/CRC dominance rules, file-order direction rules",
+      "record header and entry payload field lists (offset, width, byte order, guard) are equal between writer and reader; the first fragment is the payload prefix, middle fragments are cut only while more than one record remains, chunking tiles the remainder, FIRST/MIDDLE/LAST tags are shared and the reader reassembles in order with the same parser; the 16-bit length is bounded; every success exit of readRecord is behind the CRC match; files are sorted and visited ascending with the current file last; the sequence filter is >=; the buffered writer is never replaced unflushed.",
+      "equality of replayed and appended sequences for all inputs; non-monotone sequence numbers.",
+      "DESIGN.md §2 C09")
+
+claim("C10", "static: exhaustive error-class analysis (every error value leaving the reader classified under the predicates the replay loops really use, message texts evaluated as constants), destructive-operation table, tail-validation and bounds-check dominance rules",
+      "no error that log damage can produce is classified fatal by ReplayWALFile/getEntriesFromFile; ReuseWAL opens for append only behind a clean entry-boundary scan and io.EOF is never synthesised; CRC on every success exit; variable-length slices are bounds-checked; a new first fragment discards pending fragments. One open known finding: recoverFromWAL's backup arm still moves all log files aside when recovery fails for another reason.",
+      "the set of entries delivered per truncation offset / corruption position (enumeration); resynchronisation after the 32 KB skip.",
+      "DESIGN.md §2 C10")
+
+claim("C11", "static: codec agreement (offset-addressed extraction for footer/index/bloom header; P-ORD trace comparison of the block writer's and reader's field sequences and cursor advance), checksum dominance, bloom-key field timeline, sibling agreement, no-narrow-arithmetic lint",
+      "footer, index entry, block entry (4 paths), block trailer and bloom file header layouts agree between writer and reader; checksums and magic dominate every success exit; each block's filter is keyed by its own offset and keys join the filter before a flush; Add/Contains and setBit/testBit agree; inputs must be strictly ascending; index entries carry the block's first key after a complete write; no 8/16-bit arithmetic in the codecs.",
+      "DECLARED UNDECIDED: forward iteration yielding every entry exactly once and Seek landing on the first key >= target (value-level cursor arithmetic; the pinned tree gets both wrong; no rule here decides them).",
+      "DESIGN.md §2 C11")
+
+claim("C12", "static: P-ORD decision tables (level-order comparator, per-entry compaction decision, tombstone filter, Overlaps, builder order, merge policy), inputs-outlive-outputs dominance rules, retention guards",
+      "sources are merged newest first (level ascending; within a level newer timestamp first, sequence only as tie-break; earlier source wins ties); duplicates are skipped, values always written, tombstones written iff the filter keeps them; every drop answer of the filter carries the level condition; inputs are retired only after a successful CompactFiles and outputs recorded only after Finish; Overlaps is the closed-interval test; the SSTable list is recency-sorted at load; WAL retention spares the current file and deletes by sequence only when MaxSeq < MinSequenceKeep.",
+      "equality of merged views for all workloads; which selections a workload triggers; log retirement while data is only in memory.",
+      "DESIGN.md §2 C12")
+
 NOT_APPLICABLE_PENDING = "rules for this property are not built yet (work in progress, see DESIGN.md §2); nothing is claimed until the check exists"
 
 def main():
